@@ -4,6 +4,7 @@
  */
 
 #include "sync.h"
+#include <atomic>
 #include <mutex>
 #include <new>
 
@@ -223,5 +224,18 @@ void* platform_event_get_native_handle(platform_event_t* event) {
     return get_event(event)->event;
 }
 #endif
+
+/* Atomic int access */
+
+static_assert(sizeof(std::atomic<int>) == sizeof(int) && alignof(std::atomic<int>) == alignof(int),
+              "std::atomic<int> must have the representation of int");
+
+int platform_atomic_load_int(const int* p) {
+    return reinterpret_cast<const std::atomic<int>*>(p)->load();
+}
+
+void platform_atomic_store_int(int* p, int value) {
+    reinterpret_cast<std::atomic<int>*>(p)->store(value);
+}
 
 } /* extern "C" */
